@@ -150,3 +150,14 @@ Theorem C17_rebuilt_group_chained :
     chained H M /\ last_next M = [].
 Proof. exact rebuilt_group_chained. Qed.
 Print Assumptions C17_rebuilt_group_chained.
+
+(** Transactions.CheckSign with the members' sender gate (chain33 909acb0)
+    implies the gate-free check the theorems above assume, and gives every
+    member a sender address derived by an address driver. *)
+Theorem C17_checksign_gate_weakens :
+  forall adrv ds verify L h,
+    group_check_sign_tx adrv ds verify L h = true ->
+    group_check_sign ds verify L h = true /\
+    Forall (fun t => usable adrv (sig_ty t) (sig_pub t) = true) L.
+Proof. exact group_check_sign_tx_weaken. Qed.
+Print Assumptions C17_checksign_gate_weakens.
